@@ -30,6 +30,26 @@ theorem instanceLoopEvents_eq : Gen.RespGuard.instanceLoopEvents = [
     "if SHOOT-COND {Shoot} else {DiscardedShootSample;Report}",
     "return nil"] := rfl
 
+/-- the waiter: `Wait` stores how late the token is against the CURRENT time (model `waiterOverdue`: the three places
+that write `overdueDuration` before `return true`), `IsSlowDown` compares it with `MaxOverdueDuration` (model `isSlowDown`) -/
+theorem waiterWaitStmts_eq : Gen.RespGuard.waiterWaitStmts = [
+    "select { case <-v0.Done(): v1.overdueDuration = 0 return false default: }",
+    "v2, v3 := v1.sched.Next()",
+    "if !v3 { v1.overdueDuration = 0 return false }",
+    "v4 := v2.Sub(v1.lastNow)",
+    "if v4 <= 0 { v1.lastNow = time.Now() v1.overdueDuration = v1.lastNow.Sub(v2) return true }",
+    "v1.lastNow = time.Now()",
+    "v4 = v2.Sub(v1.lastNow)",
+    "if v4 <= 0 { v1.overdueDuration = 0 - v4 return true }",
+    "v1.overdueDuration = 0",
+    "if v1.timer == nil { v1.timer = time.NewTimer(v4) } else { v1.timer.Reset(v4) }",
+    "select { case <-v1.timer.C: return true case <-v0.Done(): return false }"] := rfl
+
+theorem waiterIsSlowDownStmts_eq : Gen.RespGuard.waiterIsSlowDownStmts = [
+    "select { case <-v0.Done(): return false default: return v1.overdueDuration >= MaxOverdueDuration }"] := rfl
+
+theorem maxOverdueNanos_eq : Gen.RespGuard.maxOverdueNanos = maxOverdue := rfl
+
 theorem discardedTag_eq : Gen.RespGuard.discardedTag = discardedTag := rfl
 theorem discardedNet_eq : Gen.RespGuard.discardedNet = discardedNet := rfl
 
